@@ -1,10 +1,14 @@
 """C01: VPSC -- every constraint is satisfied on return or is reported unsatisfiable."""
+import random
 import vcheck as V
 from checks import vpsc_common as VC
+from checks import redeq
 
 
 def main(tier):
     ev, vd = VC.run_shared('C01', tier)
+    # beyond the statement: the pre-processing that VPSC's users run on equality-heavy systems (RedundantEq.tla)
+    redeq.stage(ev, vd, V.rundir('redeq'), tier == 'quick', random.Random(V.seed()))
     ev.assumptions = ['positions observed on a 2^-20..2^-24 lattice: deviations below ~4e-6 are not detected',
                       'step-level validation covers instances with total weight <= 7 (integer lattice L = lcm(1..7)); larger instances are judged by the KKT certificate of VpscQP',
                       'harness appends added constraints to the vector the solver was built with (the documented usage in makeFeasible)',
